@@ -28,6 +28,9 @@ let directed = function MZero | MAway | MUp | MDown -> true | _ -> false
 
 let got_str got = String.concat " " got
 
+(* usize::MAX of the build under test (64-bit words); the theorems hold for every value of it *)
+let umax = Zar.pred (Zar.shift_left Zar.one 64)
+
 (* fidelity: the answer equals the as-is model under one of the two admissible digits_ub instances *)
 let fidelity (cands : string list) got =
   if List.mem (got_str got) cands then " asis=same" else " asis=diff"
@@ -103,23 +106,28 @@ let judge_float op args got =
     | "ok" :: rest when check_fl wants rest -> pass ~nt ~extra:(extra ^ fidelity cands got) ()
     | _ -> fail (want_fl wants) in
   let fres f = List.map (fun dub -> res_str fl_str (f dub)) dubs in
+  (* model fidelity: the entry-point bodies REGENERATED from round_ops.rs / convert.rs (RoundOpsGen.v; proved equal to the
+     hand-written models: C10_entry_point_bodies_generated), with round_fract behind its repaired assertion and deciding
+     by the sizes far below one half (no power is formed there) *)
+  let chk = round_fract_chk4 umax b (round_fract_sz umax b) in
+  ignore rf;
   match op with
-  | "trunc" -> fl_verdict [ int_float MZero ] (fres (fun dub -> trunc_full b dub p s e))
-  | "floor" -> fl_verdict [ int_float MDown ] (fres (fun dub -> floor_full b dub rf p s e))
-  | "ceil" -> fl_verdict [ int_float MUp ] (fres (fun dub -> ceil_full b dub rf p s e))
-  | "round" -> fl_verdict [ int_float MHalfAway ] (fres (fun dub -> round_full b dub rf p s e))
-  | "fract" -> fl_verdict [ fract_float () ] (fres (fun dub -> fract_full b dub p s e))
+  | "trunc" -> fl_verdict [ int_float MZero ] (fres (fun dub -> trunc_gen b dub p s e))
+  | "floor" -> fl_verdict [ int_float MDown ] (fres (fun dub -> floor_gen b dub chk p s e))
+  | "ceil" -> fl_verdict [ int_float MUp ] (fres (fun dub -> ceil_gen b dub chk p s e))
+  | "round" -> fl_verdict [ int_float MHalfAway ] (fres (fun dub -> round_gen b dub chk p s e))
+  | "fract" -> fl_verdict [ fract_float () ] (fres (fun dub -> fract_gen b dub p s e))
   | "split" ->
       fl_verdict [ int_float MZero; fract_float () ]
-        (List.map (fun dub -> res_str (fun (t, f) -> fl_str t ^ " " ^ fl_str f) (split_full b dub p s e)) dubs)
+        (List.map (fun dub -> res_str (fun (t, f) -> fl_str t ^ " " ^ fl_str f) (split_at_point_gen b dub p s e)) dubs)
   | "to_int" ->
       let want = "ok " ^ ia_str (to_int_spec b m s e) in
-      let cands = List.map (fun dub -> res_str ia_str (to_int_full b dub rf m p s e)) dubs in
+      let cands = List.map (fun dub -> res_str ia_str (to_int_gen b dub chk m p s e)) dubs in
       let huge = if Zar.gt (Zar.abs e) (Zar.of_int 4000) then "-huge" else "" in
       expect ~nt ~extra:(extra ^ huge ^ fidelity cands got) want got
   | "repr_to_int" ->
       let want = "ok " ^ ia_str (to_int_spec b MZero s e) in
-      let cands = List.map (fun dub -> res_str ia_str (repr_to_int_full b dub s e)) dubs in
+      let cands = List.map (fun dub -> res_str ia_str (repr_to_int_gen b dub s e)) dubs in
       expect ~nt ~extra:(extra ^ fidelity cands got) want got
   | "with_precision" ->
       let np = z (List.nth args 5) in
@@ -209,22 +217,42 @@ let judge op args got =
       let c = Zar.compare (Zar.mul (Zar.of_int 2) (Zar.abs n)) (Zar.abs d) in
       let cls = if Zar.sign n = 0 then "zero" else if c = 0 then "tie" else if c < 0 then "lt" else "gt" in
       expect ~nt:(Zar.sign n <> 0) ~extra:("cls=ratio-" ^ cls ^ (if Zar.sign d < 0 then "-negden" else "") ^ fidelity [ asis ] got) ("ok " ^ adj_name want) got
+  | "round_fract_half" ->
+      (* fract = +-(B^k / 2 + delta): the neighbourhood of the tie, for digit counts of 2^24 and more (f32 pre-filter with a
+         rounded `precision as f32`: C10_f32_filter_all_digit_counts) *)
+      let b = z (List.nth args 0) and m = mode_of (List.nth args 1) in
+      let i = z (List.nth args 2) and k = z (List.nth args 3) and dl = z (List.nth args 4) in
+      let bk = Zar.pow b (Zar.to_int k) in
+      let f0 = Zar.add (Zar.shift_right bk 1) dl in
+      let f = if List.nth args 5 = "-" then Zar.neg f0 else f0 in
+      if Zar.geq (Zar.abs f) bk then skip "outside-precondition" else
+      let want = Zar.sub (spec_round m (Zar.add (Zar.mul i bk) f) bk) i in
+      let asis = "ok " ^ flag_name (round_fract b m i f k) in
+      let c = Zar.compare (Zar.mul (Zar.of_int 2) (Zar.abs f)) bk in
+      let cls = (if c = 0 then "tie" else if c < 0 then "lt" else "gt") ^ (if Zar.geq k (Zar.shift_left Zar.one 24) then "-2p24" else "") in
+      expect ~nt:true ~extra:("cls=prim-half-" ^ cls ^ fidelity [ asis ] got) ("ok " ^ adj_name want) got
   | "round_fract_any" ->
-      (* the regenerated body (coarse f32 tests switched off: they never contradict the exact comparison, C03) behind the
-         regenerated assertion; the harness is built with debug assertions *)
+      (* the regenerated body behind the regenerated assertion (the harness is built with debug assertions).  The verdict
+         comes from round_fract_any4 (sizes first: far below one half no power is formed - C10_round_fract_far_below_half -
+         digit counts up to usize::MAX; otherwise |f| < B^k and the specification) *)
       let b = z (List.nth args 0) and m = mode_of (List.nth args 1) in
       let i = z (List.nth args 2) and f = z (List.nth args 3) and k = z (List.nth args 4) in
-      let bk = Zar.pow b (Zar.to_int k) in
-      let inside = Zar.lt (Zar.abs f) bk in
-      let off _ _ = false in
-      let model = if round_fract_pre_gen b f k then "ok " ^ flag_name (round_fract_gen off off (round_low_part m) b i f k) else "panic-assert" in
+      let tiny = Zar.leq (Zar.succ (blen f)) (sat_mul umax k (Zar.pred (blen b))) in
+      let off _ _ = false and on _ _ = true in
+      (* coarse tests: switched off (they never contradict the exact comparison, C03), except far below one half where the
+         coarse "less" test is what answers (and B^k cannot be formed) *)
+      let model = if round_fract_pre_gen umax b f k then "ok " ^ flag_name (round_fract_gen off (if tiny then on else off) (round_low_part m) b i f k) else "panic-assert" in
       let gots = if is_assert_panic got then [ "panic-assert" ] else got in
       let fid = if got_str gots = model then " asis=same" else " asis=diff" in
-      let cls = "cls=anyfract-" ^ (if not inside then "outside" else if Zar.sign k = 0 then "prec0" else if Zar.sign f = 0 then "zero" else "inside") in
-      if inside then
-        let want = Zar.sub (spec_round m (Zar.add (Zar.mul i bk) f) bk) i in
-        expect ~nt:(Zar.sign f <> 0) ~extra:(cls ^ fid) ("ok " ^ adj_name want) got
-      else if is_assert_panic got then pass ~nt:false ~extra:(cls ^ fid) () else fail "panic-debug-assertion"
+      let sizes = if fract_cheap umax b f k then "-sizes" else "-power" in
+      (match round_fract_any4 umax b m i f k with
+       | Ok r ->
+           let cls = "cls=anyfract-" ^ (if tiny then "tiny" else if Zar.sign k = 0 then "prec0" else if Zar.sign f = 0 then "zero" else "inside") ^ sizes in
+           let want =
+             if tiny then adj_name (adj r)
+             else let bk = Zar.pow b (Zar.to_int k) in adj_name (Zar.sub (spec_round m (Zar.add (Zar.mul i bk) f) bk) i) in
+           expect ~nt:(Zar.sign f <> 0) ~extra:(cls ^ fid) ("ok " ^ want) got
+       | _ -> if is_assert_panic got then pass ~nt:false ~extra:("cls=anyfract-outside" ^ sizes ^ fid) () else fail "panic-debug-assertion")
   | "round_ratio_any" ->
       let m = mode_of (List.nth args 0) in
       let i = z (List.nth args 1) and n = z (List.nth args 2) and d = z (List.nth args 3) in
@@ -235,13 +263,11 @@ let judge op args got =
       if Zar.sign d = 0 || c > 0 then
         (if is_assert_panic got then pass ~nt:false ~extra:("cls=anyratio-outside" ^ fid) () else fail "panic-assertion")
       else if c = 0 then begin
-        (* |num| = |den|: passes the assertion, outside the documented precondition; the nearest modes must still be right
-           (C10_round_ratio_boundary_nearest), the directed ones are judged against the as-is model only *)
-        let sg = Zar.of_int (Zar.sign d) in
-        let want = Zar.sub (spec_round m (Zar.mul sg (Zar.add (Zar.mul i d) n)) (Zar.abs d)) i in
-        if is_assert_panic got then pass ~nt:false ~extra:("cls=anyratio-boundary-refused" ^ fid) ()   (* a stricter assertion is within the documentation *)
-        else if directed m then (if got_str got = model then pass ~nt:false ~extra:("cls=anyratio-boundary-directed" ^ fid) () else fail model)
-        else expect ~nt:true ~extra:("cls=anyratio-boundary-nearest" ^ fid) ("ok " ^ adj_name want) got
+        (* |num| = |den|: outside the documented precondition |num/den| < 1; since F05 the assertion refuses it
+           (C10_round_ratio_repaired: the assertion IS the documented precondition) - an answer here is the old defect
+           (the directed modes answered as for a proper fraction) *)
+        if is_assert_panic got then pass ~nt:false ~extra:("cls=anyratio-boundary-refused" ^ fid) ()
+        else fail ("panic-assertion (|num| = |den| is outside the documented precondition; as-is before F05: " ^ model ^ ")")
       end else
         let sg = Zar.of_int (Zar.sign d) in
         let want = Zar.sub (spec_round m (Zar.mul sg (Zar.add (Zar.mul i d) n)) (Zar.abs d)) i in
